@@ -134,6 +134,8 @@ pub struct World {
     pub last_other_allocs: Option<u64>,
     /// the callback side effect of the last real operation happened (slot, dropped?)
     pub last_fx: Option<(Slot, bool)>,
+    /// a callback or the neighbour thread acted on another handle during the last operation
+    pub neighbour_acted: bool,
     /// global-allocator requests made while `extend` itself ran (its items existed before)
     pub last_extend_allocs: Option<u64>,
     /// what another thread does during the next operation (set by the history runner for one step)
@@ -142,7 +144,7 @@ pub struct World {
 
 impl World {
     pub fn new() -> Self {
-        World { slots: Slots::new(), model: [const { None }; SLOTS], last_other_allocs: None, last_fx: None, last_extend_allocs: None, intrude: None }
+        World { slots: Slots::new(), model: [const { None }; SLOTS], last_other_allocs: None, last_fx: None, neighbour_acted: false, last_extend_allocs: None, intrude: None }
     }
 
     /// Observe a live handle without trusting it more than necessary. Returns Err with failures
